@@ -576,7 +576,9 @@ package leveldb
 //@   props C06 C01
 //@   abstract keys
 //@   requires !overlapped ==> sortedDisjoint(tf)
-//@   guarantees [C01,C06:overlap-search-exact] (!overlapped && len(tf) > 0) ==> (0 <= begin && end <= len(tf) && forall i int :: 0 <= i && i < len(tf) ==> (ovl(tf[i], umin, umax) <==> (begin <= i && i < end)))
+//@   guarantees [C01,C06:overlap-search-exact] (!overlapped && len(tf) > 0) ==> (0 <= begin && end <= len(tf))
+//@   guarantees [C01,C06:overlap-search-exact-none-missed] (!overlapped && len(tf) > 0) ==> (forall i int :: (0 <= i && i < len(tf) && ovl(tf[i], umin, umax)) ==> (begin <= i && i < end))
+//@   guarantees [C01,C06:overlap-search-exact-none-extra] (!overlapped && len(tf) > 0) ==> (forall i int :: (0 <= i && i < len(tf) && begin <= i && i < end) ==> ovl(tf[i], umin, umax))
 //@   guarantees [C01,C06:result-is-that-range] (!overlapped && len(tf) > 0) ==> (begin < end ==> len(result) == end - begin && forall j int :: 0 <= j && j < end - begin ==> result[j] == tf[begin + j])
 
 // ---------------------------------------------------------------------------
@@ -596,3 +598,24 @@ package leveldb
 //@     assert [C04:journal-removed-only-after-its-commit] lastok("(*session).commit") > last("decodeBatchToMem")
 //@   at before call storage.Storage.Remove#2
 //@     assert [C04:journal-removed-only-after-its-commit] lastok("(*session).commit") > last("decodeBatchToMem")
+
+// ---------------------------------------------------------------------------
+// C06: the recorded smallest / largest keys of a table are its first and last appended keys.
+//@ func (*tWriter).append
+//@   props C06
+//@   safety off
+//@   requires !sameblock(key, w.last) && !sameblock(key, w.tw.dataBlock.prevKey) && len(key) <= 1099511627776 && len(value) <= 1099511627776
+//@   at before call (*Writer).Append#1
+//@     assert [C06:last-is-the-appended-key] w.last == key
+//@     assert [C06:first-set-once] (old(isnil(w.first)) ==> w.first == key) && (!old(isnil(w.first)) ==> sameslice(w.first, old(w.first)))
+//@     assert [C06:every-key-reaches-the-table] true
+//@   ensures [C06:appended-to-the-table] calls("(*Writer).Append") == old(calls("(*Writer).Append")) + 1
+
+//@ func newTableFile
+//@   props C06
+//@   safety off
+//@   ensures [C06:records-what-it-is-given] result != nil && sameslice(result.imin, imin) && sameslice(result.imax, imax) && result.size == size && result.fd.Num == fd.Num
+
+//@ func (*tWriter).finish
+//@   props C06
+//@   ensures [C06:records-first-and-last] err == nil ==> (f != nil && sameslice(f.imin, old(w.first)) && sameslice(f.imax, old(w.last)))
